@@ -1,17 +1,19 @@
 #!/bin/bash
-# usage: tools/seedrun.sh [seed-name ...]   -- applies each seeded patch to /repo, runs the owning property's
-# check (and all checks with ALL=1), reverts /repo. Prints one line per seed.
+# usage: tools/seedrun.sh [seed-name ...]   -- applies each seeded patch, runs the owning property's check
+# (all checks with ALL=1), reverts. Prints one block per seed. By default the patch is applied to /repo itself
+# (and undone straight afterwards); set SEED_REPO=<scratch worktree of /repo> to leave /repo untouched.
 cd /verif
-[ $# -eq 0 ] && set -- $(ls seeded)
+R=${SEED_REPO:-/repo}
+mkdir -p /tmp/seedrun_v && cp known_findings.txt /tmp/seedrun_v/
+[ $# -eq 0 ] && set -- $(ls seeded | grep -v RESULTS)
 for s in "$@"; do
-  prop=${s%%-*}
-  git -C /repo apply /verif/seeded/$s/patch.diff || { echo "$s applyfail"; git -C /repo checkout -- .; continue; }
+  prop=${s#R2-}; prop=${prop%%-*}
+  git -C $R apply /verif/seeded/$s/patch.diff || { echo "== $s: applyfail"; git -C $R checkout -- .; continue; }
   if [ -n "$ALL" ]; then
-    out=$(VERIF_DIR=/tmp/seedrun_v bin/mosverif all 2>&1 | grep "^VIOLATION" | sed 's/ replay=.*//' | tr '\n' ' ')
+    out=$(VERIF_DIR=/tmp/seedrun_v bin/mosverif all -repo $R 2>&1 | grep "^VIOLATION" | sed 's/ replay=.*//' | tr '\n' ' ')
   else
-    out=$(VERIF_DIR=/tmp/seedrun_v bin/mosverif check $prop 2>&1 | grep "violation \[\|undecided \[\|^VIOLATION" | sed 's/ replay=.*//' | cut -c1-260)
+    out=$(VERIF_DIR=/tmp/seedrun_v bin/mosverif check $prop -repo $R 2>&1 | grep "violation \[\|undecided \[" | sed 's/^ *//' | cut -c1-260)
   fi
-  git -C /repo checkout -- .
+  git -C $R checkout -- . ; git -C $R clean -fdq
   echo "== $s: ${out:-MISSED}"
 done
-rm -rf /tmp/seedrun_v
